@@ -19,6 +19,26 @@ CLAIMED = {
    text='The domain is finite (<=16 rows x 10 operators, <=15 value sets x 4 folds per logic) and enumerated completely: every row of every logic is extracted from the running truth functions / evaluator and compared by kernel evaluation with Ptx/Sem/Spec.lean; definitional identities and extension-has-base-tables are separate kernel-checked theorems on the code tables.',
    note=TB + ' The oracle is a hand transcription of the doc prose and cited literature (Spec.lean), short and meant to be read.'),
 }
+TB2 = ('Trusted: Lean 4.33 kernel; axioms propext/Classical.choice/Quot.sound only (audited each run); the hand-written Lean model of the '
+       'component; the correspondence harness (generators, canonicalisation, diff) that ties the model to the code on sampled and '
+       'exhaustive-small inputs; known_findings.json (committed, read-only). ')
+CLAIMED.update({
+ 'C12': dict(level='proof', technique='Lean 4 proof (Polish round trip, argstr round trip, token injectivity) on a parser/writer model whose symbol tables are regenerated from /repo; correspondence with the real Parser/LexWriter through the driver',
+   text='The Polish parser and writer, the standard parser and the argument-string codec are modelled as total Lean functions over symbol tables regenerated from the running code each run (table side-conditions by decide +kernel). Proved for all sentences of the parsers\' language: parsePolish(writePolish s ++ rest) returns s (with continuation), argstr round trip, token-level injectivity / prefix-freeness of the Polish writer. The standard-notation denotation theorem and per-table rendered-string injectivity are stated in full but only partially proved (one kernel-evaluated instance) — they are covered by the correspondence and the implementation-side oracles (parse(write s) = s for all 54 writer configurations the parser accepts; pairwise distinct renderings).',
+   note=TB2 + 'Statements carry the explicit hypothesis that subscripts are below the int->str digit limit. Standard-notation theorems are partial (see tools/notes_C12.md).'),
+ 'C13': dict(level='proof', technique='Lean 4 proof that no crash outcome is reachable in a parser model where every partial Python operation is an explicit outcome; output well-formedness; correspondence on exhaustive-short, mutated and long inputs and on parse sequences',
+   text='Both parsers are modelled with every Python operation that can raise something other than ParseError as an explicit crash outcome (table lookup, index past end, int() digit limit, constructor errors, store conflicts, recursion depth as fuel) and the with-block exit semantics. Proved for every table, string, store and fuel: only ParseError (with the entry guard of commit c1123bc; the unguarded model provably crashes on a long digit run and on deep nesting), termination by construction, every returned sentence closed / non-vacuous / not re-bound / arity-exact, stores stay consistent, result is a function of (string, store).',
+   note=TB2 + 'History independence of the real parser object is carried by the correspondence (sequences of parses on one parser incl. failing parses that leak auto-declared predicates and a cache-evicting sequence). A frozen Predicates store with auto_preds raises AttributeError: outside the property\'s precondition.'),
+ 'C14': dict(level='proof', technique='Lean 4 proof (sort-key injectivity and prefix-freeness, total order, hash consistency, argument order, cache transparency for sound cache states) + correspondence incl. one subprocess per ITEM_CACHE_SIZE',
+   text='sortKey / cmpKeys mirror sort_tuple and orderitems; proved: the flattened key is injective and prefix-free on well-formed items (zero padding cannot confuse), cmp = eq iff structurally equal, antisymmetric, transitive, total, rank-first, hash a function of the key, argument order total and consistent. The construction cache (DequeCache + metaclass call incl. from-ident path) is a state machine; cache_transparent is proved for every sound cache state, any maxlen and eviction history, under hypotheses (ident round trip, sufficient recursion budget, no internal KeyError) that the driver evaluates on every compared sequence — hence _partial. Immutability, copy and pickle are runtime observations of the harness.',
+   note=TB2 + 'ident/spec round trips are proved as instances only; structural invariant preservation of the cache is evaluated per sequence, not proved (tools/notes_C14.md). Known finding: lazily filled private slots accept setattr.'),
+ 'C15': dict(level='proof', technique='Lean 4 proof against an independent flat token walk; correspondence on exhaustive-small and random sentences x parameter pairs',
+   text='subst / unquantify / negative and the derived attributes mirror the Python recursion; the theorems relate them to an independent prefix-order token walk of the sentence: exactly the occurrences of the old parameter are replaced and the skeleton is unchanged, self/absent substitution is the identity, unquantify = substitute in the body, negative un-negates, constants/variables/predicates/atomics/operators/quantifiers equal those of the walk. Fully proved.',
+   note=TB2 + 'The lazily cached Python attributes are tied to the model by correspondence (205k cases per quick run).'),
+ 'C18': dict(level='proof', technique='Lean 4 refinement proof (invariant by induction over all operation sequences, abstraction to a duplicate-free list, raise-atomicity) for qset / linqset / Predicates models keeping the redundant structures; correspondence exhaustive to depth 4 and random to length 60',
+   text='The three containers are modelled with their redundant representations (list+set, links+table+length, qset+lookup index) and the real order of checks and updates; every public operation is a total function returning state and outcome (exception class). Proved for all operation sequences from empty: the invariant holds, abs(run ops) = Spec.run ops on a plain duplicate-free list, outcomes agree; a raising single-element operation leaves the state unchanged; the predicate store never holds two arities of one symbol and finds each member by any reference. The unfixed setitem operations provably break the invariant (witness by decide).',
+   note=TB2 + 'Pointer surgery of linkseq is modelled at list level; its pointer-level consistency is seen by the correspondence (forward and reversed iteration after every op). The model mirrors the code with fixes cbd6d8a, 5e75039, c1ba8ab, 9115501.'),
+})
 PENDING = 'check not built yet in this round (planned: Lean 4 proof + correspondence, see DESIGN.md section 6)'
 NOT_APPLICABLE = {}
 
